@@ -64,6 +64,26 @@ def trees_for(payload, for_search=False, flags=False):
         for a_, b_, c_, d_ in _it.product(range(3), repeat=4):
             if len({a_, b_, c_, d_}) >= 2:
                 trees.append(gen.mk(o1, gen.mk(o2, _N(name="pqr"[a_]), _N(name="pqr"[b_])), gen.mk(o3, _N(name="pqr"[c_]), _N(name="pqr"[d_]))))
+    # terms that PRINT alike (the library's repr has no parentheses) but are different functions, meeting in one rule: A ^ B, A | B, A & ~B ...
+    def shapes(leaves_):
+        if len(leaves_) == 1:
+            yield leaves_[0]
+            return
+        for i in range(1, len(leaves_)):
+            for l_ in shapes(leaves_[:i]):
+                for r_ in shapes(leaves_[i:]):
+                    for op_ in ("and", "or", "xor"):
+                        yield (op_, l_, r_)
+
+    def mk_tree(sp):
+        return _N(name=sp) if isinstance(sp, str) else gen.mk(sp[0], mk_tree(sp[1]), mk_tree(sp[2]))
+    by_repr = {}
+    for sp in shapes(["p", "q", "r", "s"]):
+        by_repr.setdefault(repr(mk_tree(sp)), []).append(sp)
+    twins = [(a_, b_) for grp in by_repr.values() for i_, a_ in enumerate(grp) for b_ in grp[i_ + 1:]]
+    for a_, b_ in twins[:: max(1, len(twins) // (400 if thorough else 120))]:
+        trees += [gen.mk("xor", mk_tree(a_), mk_tree(b_)), gen.mk("or", mk_tree(a_), mk_tree(b_)), gen.mk("and", mk_tree(a_), gen.mk("not", mk_tree(b_))),
+                  gen.mk("or", gen.mk("not", mk_tree(a_)), mk_tree(b_))]
     # shared sub-terms (the same object used twice) and both operand orders
     a = gen.build(gen.random_shape(rng, len(leaves), 2), leaves)
     trees += [PP.AndPredicate(a, a), PP.OrPredicate(a, PP.NotPredicate(a)), PP.XorPredicate(PP.NotPredicate(a), a)]
@@ -83,8 +103,11 @@ def search(payload):
     trees, family = trees_for(payload, for_search=True, flags=True)
     out = oc.search(trees, [], "C01", payload, assignments=True, family=family)
     # the same small formulas as one HISTORY in this process (fresh objects each time, interleaved, repeated, after calls that raise)
-    small = [t for _, t in gen.all_prop_trees(4, ["a", "b"])][:: 3] + [t for _, t in gen.all_prop_trees(5, ["a", "b", "c"])][:: 97]
-    n, hfails = oc.history_search("C01", payload, small[:170], [], assignments=True)
+    listed = oc.load_listed("C01") or {}
+    small = [t for _, t in gen.all_prop_trees(4, ["p", "q"])][:: 3] + [t for _, t in gen.all_prop_trees(5, ["p", "q", "r"])][:: 97]
+    small = [t for t in small if oc.skey(t) not in listed][:170]       # the listed failing members are left to the family search above
+    # (every call works on a DEEP COPY of its template: also the constants are then other objects than the module's always_true_p / always_false_p)
+    n, hfails = oc.history_search("C01", payload, small, [], assignments=True, vetted=True)
     out["evaluations"] += n
     out["history_calls"] = n
     out["failures"] = (out["failures"] + hfails)[:10]
